@@ -857,6 +857,10 @@ func (fr *FuncRun) atCallAsserts(f *Frame, st *State, c *ssa.CallCommon, name st
 		if ac.Ord != 0 && ac.Ord != fr.globalCallOrd(name) {
 			continue
 		}
+		if name == "go" && f != top {
+			// clauses about go statements speak of the function's own go statements, not of those in callees
+			continue
+		}
 		binds := fr.callBinds(f, c, fnVal, args)
 		// names of the contract frame's own params stay bound through inlining
 		for n, v := range fr.currentParamBinds(top, st) {
@@ -882,6 +886,9 @@ func (fr *FuncRun) ghostUpdates(f *Frame, st *State, c *ssa.CallCommon, name str
 			continue
 		}
 		if ac.Ord != 0 && ac.Ord != fr.globalCallOrd(name) {
+			continue
+		}
+		if name == "go" && f != top {
 			continue
 		}
 		binds := fr.callBinds(f, c, fnVal, args)
